@@ -106,6 +106,27 @@ class Harness:
             st0.flush()
             w.event(op="flush", left=len(w.fs), n=len(st0))
             w.event(op="len", n=len(st0))
+            if scen.get("writers2"):
+                # a second generation after the flush: new writer processes store again and the SAME parent object, which read
+                # (and was closed) in the first generation, reads again
+                st0.reader_only = False
+                procs2 = [S.SimProc(target=writer(sc)) for sc in scen["writers2"]]
+                for p in procs2:
+                    p.start()
+                for p in procs2:
+                    p.join()
+                w.event(op="len", n=len(st0))
+                st0.reader_only = True
+                with st0:
+                    w.event(op="iter", ts=[token_of(x) for x in st0])
+                    ids2 = sorted(set(g for sc in scen["writers2"] for g, _ in sc if g >= 0) | {0})
+                    for k, g in enumerate(ids2):
+                        w.event(op="read_begin", r=9500 + k, g=g)
+                        try:
+                            res = token_of(st0[g])
+                        except IndexError:
+                            res = -1
+                        w.event(op="read_end", r=9500 + k, g=g, res=res)
         return main
 
     def execute(self, scen, chooser, max_steps=6000):
@@ -139,6 +160,9 @@ def scenarios(rnd, quick):
         dict(writers=[[(5, 1), (0, 2)]], readers=[[5, 4]]),                                  # ids above a gap
         dict(writers=[[(1, 1), (1, 2)], [(0, 3)]], readers=[[1]]),                           # the same writer stores twice
         dict(writers=[[(0, 1), (-1, 0), (2, 2), (-1, 0), (1, 3)], [(3, 4)]], readers=[[0, 2, 1]]),   # close / re-open between stores
+        # flush and refill: the same ids again with new texts, read by an object that already read the first generation
+        dict(writers=[[(0, 1), (1, 2)]], readers=[[0]], writers2=[[(1, 11), (0, 12)]]),
+        dict(writers=[[(0, 1)], [(1, 2)]], readers=[], writers2=[[(0, 21)], [(2, 22), (1, 23)]]),
     ]
     for _ in range(3 if quick else 20):
         nw = rnd.randint(1, 3)
